@@ -22,11 +22,11 @@ type dctx struct {
 	funcs []func()
 }
 
-func newDctx() *dctx                              { return &dctx{done: make(chan struct{})} }
-func (d *dctx) Deadline() (time.Time, bool)       { return time.Time{}, false }
-func (d *dctx) Done() <-chan struct{}             { return d.done }
-func (d *dctx) Err() error                        { return d.err }
-func (d *dctx) Value(any) any                     { return nil }
+func newDctx() *dctx                        { return &dctx{done: make(chan struct{})} }
+func (d *dctx) Deadline() (time.Time, bool) { return time.Time{}, false }
+func (d *dctx) Done() <-chan struct{}       { return d.done }
+func (d *dctx) Err() error                  { return d.err }
+func (d *dctx) Value(any) any               { return nil }
 func (d *dctx) AfterFunc(f func()) func() bool {
 	i := len(d.funcs)
 	d.funcs = append(d.funcs, f)
@@ -445,7 +445,11 @@ func c04Reissue(b Bounds) *Scenario {
 					rsp, err = c.Call(context.Background(), "mB", nil)
 					callRet("mB", rsp, err)
 				})
-				j.Go("cancel", func() { vs.Await(func() bool { return h.idOf("mA") != "" }, "request A seen"); vs.Event("env", "cancel"); cancelA() })
+				j.Go("cancel", func() {
+					vs.Await(func() bool { return h.idOf("mA") != "" }, "request A seen")
+					vs.Event("env", "cancel")
+					cancelA()
+				})
 				vs.GoNamed("peer", h.peerLoop)
 				vs.GoNamed("script", func() {
 					vs.Await(func() bool { return h.idOf("mB") != "" || h.peerDone }, "await request B")
